@@ -15,6 +15,7 @@ secondOrderFF_entry secondOrderFF_plus_adjoint_of_segments secondOrderStep_plus_
 secondOrderFF_plus_adjoint secondOrderFFFromScratch_plus_adjoint'''.split() + [
     'FFVerif.C07.cleanup_freq', 'FFVerif.C07.getFF_spec', 'FFVerif.C07.served_value_is_fresh']
 LEAN_MODULES = ['FFVerif.Props.C10', 'FFVerif.Props.C10Asm', 'FFVerif.Props.C07']
+PINS = ['pinFrequencyShifts']
 GEN_SITES = ['cache:cleanup', 'const:numeric._second_order_integral',
              'einsum:numeric_calculate_second_order_filter_function_0',
              'einsum:numeric_calculate_second_order_filter_function_1',
